@@ -180,7 +180,7 @@ def c01(acc):
     """Reader events match the lexical structure."""
     q = acc.tier == QUICK
     acc.rule = ("(A/B) every byte string that is a concatenation of <= K fragments over 20 markup-significant fragments plus 13 curated seeds, "
-                "under the listed configurations; non-trivial = distinct (input,config) whose expected stream has at least one event other than Text/Eof. "
+                "under the listed configurations; Also: the all-configuration behaviours on chunked/async/NsReader/from_file sources, construct-focused alphabets (DOCTYPE nesting, comment/CDATA/PI terminator look-alikes, quotes in tags). non-trivial = distinct (input,config) whose expected stream has at least one event other than Text/Eof. "
                 "(C) generated/mutated/random/corpus documents; non-trivial = distinct inputs with a markup event")
     acc.trusted = READER_TRUST
     inv = ["Inv_RefMatch", "Inv_Total", "Inv_Nesting"]
@@ -211,7 +211,7 @@ def c02(acc):
     q = acc.tier == QUICK
     acc.rule = ("(A) Source.tla: every input of <= K fragments x every cut sequence (chosen per refill) x stutters; (B) the behaviours of MC_Reader executed on "
                 "BufRead and tokio AsyncBufRead sources under all 2^(n-1) cuts for inputs up to 10 bytes (sizes 1,2,3,7 + random beyond) and three Pending patterns; "
-                "(C) recorded traces over all source kinds with random cuts; non-trivial = distinct (input,config) with a markup event")
+                "(C) recorded traces over all source kinds with random cuts; Also: construct-focused alphabets in Source.tla (every cut per refill) and on the real sources under all one- and two-cut deliveries; env-level traces (every fill_buf/consume) stepped through Source.tla. non-trivial = distinct (input,config) with a markup event")
     acc.trusted = READER_TRUST + ["BOM / encoding sniff is outside Source.tla (first piece >= 4 bytes when the input starts like a BOM, as the property allows)"]
     mc_source(acc, 2 if q else 3, faults=False, name="MC_Source-nofault")
     if not q:
@@ -236,7 +236,7 @@ def c18(acc):
     q = acc.tier == QUICK
     acc.rule = ("(A) Source.tla with one I/O error allowed at any refill and up to two Interrupted/Pending stutters; (B) for every MC_Reader behaviour and five "
                 "cut patterns, every refill index as fault point: Interrupted x1, x2 (must be invisible) and a hard error (prefix + Io in the call that met it), "
-                "sync and async; (C) recorded traces with random multi-interrupt patterns and hard errors; non-trivial = distinct (input,config) with a markup event")
+                "sync and async; (C) recorded traces with random multi-interrupt patterns and hard errors; Also: construct-focused alphabets with faults; env-level traces. non-trivial = distinct (input,config) with a markup event")
     acc.trusted = READER_TRUST
     mc_source(acc, 2 if q else 3, faults=True, name="MC_Source-fault")
     _, p = mc_reader(acc, 2, "default" if q else "cover", ["Inv_RefMatch"], name="MC_Reader-c18")
@@ -256,7 +256,7 @@ def c03(acc):
     q = acc.tier == QUICK
     acc.rule = ("(A) MC_Reader with Inv_Total over the markup alphabet and over a byte-class alphabet (NUL, 0x80, 0xFF, letters, markup bytes); (B) each behaviour "
                 "executed on slice/str and chunked sources with every payload accessor exercised under catch_unwind; (C) random 256-value byte strings, mutated and "
-                "corpus documents over all sources with configuration flips; a panic is recorded as data and rejected. non-trivial = distinct (input,config) with a markup event")
+                "corpus documents over all sources with configuration flips; a panic is recorded as data and rejected. Also: NsReader (slice and chunked) and from_file sources; harness built with overflow checks and debug assertions. non-trivial = distinct (input,config) with a markup event")
     acc.trusted = READER_TRUST + ["a concrete panic is found by running the code (the spec supplies result domain, shapes and invariants)"]
     _, p = mc_reader(acc, 3 if q else 4, "cover", ["Inv_Total", "Inv_RefMatch"], frag="bytes", name="MC_Reader-bytes")
     replay_reader(acc, p, "slice")
@@ -274,7 +274,7 @@ def c08(acc):
     q = acc.tier == QUICK
     acc.rule = ("(A) MC_Reader Inv_Tiling (span between consecutive positions = the event's markup; final position = length) for configurations without trimming/"
                 "expansion; (B) positions after every call compared, and every event written back with Writer::write_event and compared with the spec's rendering "
-                "(slice and two chunked sources); (C) corpus/generated traces under the neutral-like configurations. non-trivial = distinct input with a markup event")
+                "(slice and two chunked sources); (C) corpus/generated traces under the neutral-like configurations. Also: Reader::stream() raw reads between events (MC_ReaderOps Stream action, Inv_StreamTiling; io::Read with short reads and fill_buf/consume), TRaw trace records. non-trivial = distinct input with a markup event")
     acc.trusted = READER_TRUST
     _, p = mc_reader(acc, 3 if q else 4, "neutral", ["Inv_Tiling", "Inv_RefMatch"], name="MC_Reader-c08")
     replay_reader(acc, p, "slice")
@@ -300,7 +300,7 @@ def c16(acc):
     q = acc.tier == QUICK
     acc.rule = ("(A) MC_Reader Inv_RefMatch: machine stream under cfg = Transform(cfg, neutral grammar stream) incl. positions, for all 128 configurations (K small) "
                 "and a pairwise-covering set (K larger); (B) the same behaviours on the real reader; (C) traces with random configurations. "
-                "non-trivial = distinct (input,config) with a markup event")
+                "Also: skip and toggle histories (MC_ReaderOps: read_to_end*/read_text under the trim switches incl. failing ones, Config::trim_text / enable_all_checks helpers, library defaults), chunked sources, focused comment alphabet. non-trivial = distinct (input,config) with a markup event")
     acc.trusted = READER_TRUST
     _, p = mc_reader(acc, 2 if q else 3, "all", ["Inv_RefMatch", "Inv_Nesting"], name="MC_Reader-c16all", timeout=3000)
     replay_reader(acc, p, "slice")
@@ -569,7 +569,7 @@ def c09(acc):
                 "BytesCData::escaped, comment, PI, BytesDecl::new, DOCTYPE, ElementWriter text/empty/cdata/pi) with payloads from a markup-heavy pool: reading the "
                 "written bytes back (reader+attribute+escape specs composed) gives the constructed logical events. (B) the same sequences built with the real "
                 "constructors, written sync and async, read back with the real reader and unescaped. (C) random longer construction sequences validated by TLC. "
-                "non-trivial = sequences of >= 2 descriptors")
+                "Also: ElementWriter operation lists (mode elem: with_attribute / with_attributes / new_line x 4 finishing calls x depth x plain/indenting, sync and *_async), sinks with short writes, write_bom. non-trivial = sequences of >= 2 descriptors")
     acc.trusted = ["TLC", "harness/src/writer.rs (descriptor interpreter, logical read-back)", "constructor preconditions as documented (names without blanks/'>', comments without '--', PI without '?>')"]
     _, p = mc_writer(acc, 2 if q else 3, "build", [0], "MC_Writer-build")
     summ, viol, _ = harness(["writer-replay", "--file", p, "--prop", acc.pid, "--out-dir", REPLAY_DIR])
@@ -589,7 +589,7 @@ def c19(acc):
                 "widths: machine output = declarative 'plain output + newline/indent before wrapped markup not following Text/CData', depth saturates at 0, read-back "
                 "with whitespace-only text dropped equals the plain read-back. (B) the same sequences through Writer::new / new_with_indent, sync and async, bytes "
                 "compared, real read-back compared. (C) sequences up to 60 events, nesting past the preallocated 128 indent bytes, widths 0-9. "
-                "non-trivial = sequences of >= 2 events. The serde serializer's indentation is covered by the C06/C13 checks (same rule, SerdeModel)")
+                "Also: ElementWriter attribute indentation (mode elem); the literal statement IndentConforms (white space only where it may appear) is what is enforced, the exact amount of indentation is reported as drift; deterministic deep nesting past 128 indent bytes. non-trivial = sequences of >= 2 events. The serde serializer's indentation is covered by the C06/C13 checks (same rule, SerdeModel)")
     acc.trusted = ["TLC", "harness/src/writer.rs"]
     _, p = mc_writer(acc, 4 if q else 5, "indent", [0, 1, 4] if q else [0, 1, 2, 4, 9], "MC_Writer-indent")
     summ, viol, _ = harness(["writer-replay", "--file", p, "--prop", acc.pid, "--out-dir", REPLAY_DIR])
@@ -707,7 +707,7 @@ def c14(acc):
     q = acc.tier == QUICK
     acc.rule = ("(A) inherited: Source.tla (chunk independence of the event stream, MC_Source) - run here with the default configuration; (B) every serialized family "
                 "value deserialized with from_str and with from_reader over piece sizes 1,2,3,7 and random cuts: both fail or both succeed with equal values; plus the "
-                "mutated/truncated documents of the C07 leg. non-trivial = documents with more than 4 logical events")
+                "mutated/truncated documents of the C07 leg. Also: each document with a byte-order mark, a UTF-8 declaration, both, and with namespace-prefixed element names; reader-level traces of BOM documents in arbitrary pieces validated with SniffLen (known finding C14-1). non-trivial = documents with more than 4 logical events")
     acc.trusted = SERDE_TRUST
     mc_source(acc, 2, faults=False, name="MC_Source-c14")
     _, p = mc_serde(acc, RT_TYPES if not q else RT_TYPES[:10], "rt", "MC_Serde-c14")
@@ -755,7 +755,7 @@ def c07(acc):
                 "consecutive Text events (the lemma behind the unreachable!() sites), ends in Eof or an error, is bounded. (B) every soup (and, in the thorough tier, "
                 "every truncation of it) deserialized into all 20 family types + String, numbers, bool, (), Option, Vec, tuple, HashMap, IgnoredAny-containing "
                 "types through from_str and from_reader under catch_unwind; (C-style) token-level mutations and every-byte truncations of serialized family values. "
-                "non-trivial = soups with >= 2 markup tokens")
+                "Also: content under a bound xsi:nil (mode nil) with Option-valued $value/$text targets, text-run shapes (mode textrun), a build without overlapped-lists. non-trivial = soups with >= 2 markup tokens")
     acc.trusted = SERDE_TRUST + ["a concrete panic is found by running the code; the spec supplies shapes and the justifying lemma"]
     _, p = mc_de(acc, "soup", 4 if q else 5, ["F02"], "MC_De-soup")
     de_replay(acc, p, "soup", "B:token soups x all target types x from_str/from_reader", extra=["--mutate", 0 if q else 1])
@@ -780,7 +780,7 @@ def c15(acc):
                 "character references, <x/> vs <x></x>, attribute order, quote kind, spacing, prolog + leading comment, trailing comment/PI) and several "
                 "compositions: the DeEvent stream (names, attribute sets, merged unescaped text) is unchanged. (B) every rewritten document (incl. unknown attribute, "
                 "unknown first/last child where the type ignores unknown fields) deserialized with from_str must equal the original value. "
-                "non-trivial = values with more than 10 rewritten documents")
+                "Also: unknown children whose children repeat their name, two insertions in one text run, a quick-xml built without overlapped-lists, chunked from_reader, schema-less AnyNode view. non-trivial = values with more than 10 rewritten documents")
     acc.trusted = SERDE_TRUST
     types = ["F02", "F05", "F07", "F11", "F16", "F19", "F22"] if q else RT_TYPES
     _, p = mc_de(acc, "rewrite", 1, types, "MC_De-rewrite", timeout=3400)
